@@ -1,6 +1,6 @@
 (* Proofs/SideC14.v — side conditions over the prefix tables regenerated from /repo (Gen/C14.v), re-proved on
    every run, and the concrete witness schedules of the refuted statements (on the regenerated tables). *)
-From TX Require Import Model.Hybrid Proofs.Hybrid Gen.C14 Corr.C14.
+From TX Require Import Base.Val Model.Hybrid Proofs.Hybrid Gen.C14 Corr.C14.
 From Coq Require Import Lia.
 
 (* ---- prefix tables ---- *)
@@ -163,7 +163,26 @@ Definition seq_inits (c : cfg) (k : kbytes) : list world :=
   [e; tset e TPers k (Some (VList [7%N])); tset (tset e TPers k (Some (VStr 9))) ct k (Some (VStr 9))].
 Definition cfg_shared : cfg := {| has_shared := true; en_pers := true; fix_incr := true; fix_setnx := true |}.
 
-Lemma sequential_small_scope :
-  forallb (fun ck => forallb (fun w => forallb (seq_ok (fst ck) (snd ck) w) (seqs 3 (seq_alphabet (snd ck)))) (seq_inits (fst ck) (snd ck)))
-          [(cfg_local, k_user); (cfg_shared, k_cmap); (cfg_local, k_cmap); (cfg_shared, k_user)] = true.
+Definition kv_alphabet (k : kbytes) : list op := [OSet k (VStr 1); OSet k (VList [5%N]); OGet k; ODel k; OExists k].
+Definition all_cases : list (cfg * kbytes) := [(cfg_local, k_user); (cfg_shared, k_cmap); (cfg_local, k_cmap); (cfg_shared, k_user)].
+
+(* Set/Get/Delete/Exists: every coherent initial state, cold cache included *)
+Lemma sequential_small_scope_kv :
+  forallb (fun ck => forallb (fun w => forallb (seq_ok (fst ck) (snd ck) w) (seqs 4 (kv_alphabet (snd ck)))) (seq_inits (fst ck) (snd ck)))
+          all_cases = true.
+Proof. vm_compute. reflexivity. Qed.
+
+(* with AppendToList/RemoveFromList: from the empty and the warm state (a cold cache is the refuted case below) *)
+Lemma sequential_small_scope_lists :
+  forallb (fun ck => forallb (fun w => forallb (seq_ok (fst ck) (snd ck) w) (seqs 3 (seq_alphabet (snd ck))))
+                             (firstn 1 (seq_inits (fst ck) (snd ck)) ++ skipn 2 (seq_inits (fst ck) (snd ck))))
+          all_cases = true.
+Proof. vm_compute. reflexivity. Qed.
+
+(* ONE caller, ONE AppendToList on a cold cache, then Get: the write-back of the list read by the Append lands after
+   the Append wrote the new list, and the Get returns the list WITHOUT the appended element *)
+Definition w_cold_list : world := tset (init_world empty_store empty_store empty_store) TPers k_cmap (Some (VList [7%N])).
+Definition r_cold_list := exec_seq GenTables cfg_shared w_cold_list [OAppend k_cmap 8; OGet k_cmap].
+Lemma list_sequential_cold_cache_witness :
+  (snd r_cold_list, tget (fst r_cold_list) TPers k_cmap) = ([Some ROk; Some (RVal (VList [7%N]))], Some (VList [7%N; 8%N])).
 Proof. vm_compute. reflexivity. Qed.
